@@ -8,6 +8,7 @@ import (
 	"go/scanner"
 	"go/token"
 	"go/types"
+	"regexp"
 	"sort"
 	"strings"
 
@@ -61,6 +62,9 @@ func Inventory() map[string]bool {
 	for _, l := range strings.Split(inventoryText, "\n") {
 		l = strings.TrimSpace(l)
 		if l != "" && !strings.HasPrefix(l, "#") {
+			if i := strings.IndexByte(l, '\t'); i >= 0 {
+				l = l[:i]
+			}
 			m[l] = true
 		}
 	}
@@ -90,20 +94,405 @@ func unstar(e ast.Expr) ast.Expr {
 	}
 }
 
-// DeclNames lists the function declarations of the loaded module (HDRCHECK_INVENTORY=1).
+// DeclNames lists the function declarations of the loaded module with their signatures
+// ("name<TAB>signature", HDRCHECK_INVENTORY=1).
 func (p *Prog) DeclNames() []string {
 	var out []string
 	for _, pk := range p.Pkgs {
 		for _, f := range pk.Syntax {
 			for _, d := range f.Decls {
 				if fd, ok := d.(*ast.FuncDecl); ok {
-					out = append(out, DeclName(pk.PkgPath, fd))
+					out = append(out, DeclName(pk.PkgPath, fd)+"\t"+sigString(pk, fd))
 				}
 			}
 		}
 	}
+	// struct fields of the module's named types: "pkg.{Type}.field<TAB>type"
+	for _, fo := range p.fieldObjs() {
+		out = append(out, fo.name+"\t"+fo.typ)
+	}
+	// named types: "pkg.<Type><TAB>shape"
+	for _, to := range p.typeObjs() {
+		out = append(out, to.name+"\t"+strings.Join(to.shape, " ; "))
+	}
 	sort.Strings(out)
 	return out
+}
+
+type typeObj struct {
+	name  string // pkg.<Type>
+	shape []string
+	obj   *types.TypeName
+}
+
+// typeObjs lists the module's named types with their shape: the fields and the declared methods
+// with their types, the type's own name replaced by "$", so that a renamed type keeps its shape.
+func (p *Prog) typeObjs() []typeObj {
+	var out []typeObj
+	q := func(pk *types.Package) string { return pk.Path() }
+	for _, pk := range p.Pkgs {
+		if strings.HasSuffix(pk.PkgPath, "/pb") {
+			continue
+		}
+		sc := pk.Types.Scope()
+		for _, n := range sc.Names() {
+			tn, ok := sc.Lookup(n).(*types.TypeName)
+			if !ok || tn.IsAlias() {
+				continue
+			}
+			named, ok := tn.Type().(*types.Named)
+			if !ok {
+				continue
+			}
+			self := regexp.MustCompile(regexp.QuoteMeta(pk.PkgPath+"."+tn.Name()) + `\b`)
+			var shape []string
+			if st, ok := named.Underlying().(*types.Struct); ok {
+				for i := 0; i < st.NumFields(); i++ {
+					f := st.Field(i)
+					shape = append(shape, "f:"+f.Name()+":"+self.ReplaceAllString(types.TypeString(f.Type(), q), "$"))
+				}
+			} else {
+				shape = append(shape, "u:"+self.ReplaceAllString(types.TypeString(named.Underlying(), q), "$"))
+			}
+			for i := 0; i < named.NumMethods(); i++ {
+				m := named.Method(i)
+				sig := m.Type().(*types.Signature)
+				s := ""
+				for _, tup := range []*types.Tuple{sig.Params(), sig.Results()} {
+					s += "("
+					for k := 0; k < tup.Len(); k++ {
+						s += types.TypeString(tup.At(k).Type(), q) + ","
+					}
+					s += ")"
+				}
+				shape = append(shape, "m:"+m.Name()+":"+self.ReplaceAllString(strings.Join(strings.Fields(s), " "), "$"))
+			}
+			sort.Strings(shape)
+			out = append(out, typeObj{pk.PkgPath + ".<" + tn.Name() + ">", shape, tn})
+		}
+	}
+	return out
+}
+
+type fieldObj struct {
+	name string // pkg.{Type}.field
+	typ  string
+	obj  *types.Var
+}
+
+func (p *Prog) fieldObjs() []fieldObj {
+	var out []fieldObj
+	q := func(pk *types.Package) string { return pk.Path() }
+	for _, pk := range p.Pkgs {
+		if strings.HasSuffix(pk.PkgPath, "/pb") {
+			continue
+		}
+		sc := pk.Types.Scope()
+		for _, n := range sc.Names() {
+			tn, ok := sc.Lookup(n).(*types.TypeName)
+			if !ok {
+				continue
+			}
+			st, ok := tn.Type().Underlying().(*types.Struct)
+			if !ok {
+				continue
+			}
+			for i := 0; i < st.NumFields(); i++ {
+				f := st.Field(i)
+				if f.Embedded() {
+					continue
+				}
+				out = append(out, fieldObj{pk.PkgPath + ".{" + tn.Name() + "}." + f.Name(), types.TypeString(f.Type(), q), f})
+			}
+		}
+	}
+	return out
+}
+
+// sigString renders the signature of a declaration without parameter names (types only), so that
+// a renamed function can be recognised by it.
+func sigString(pk *packages.Package, fd *ast.FuncDecl) string {
+	obj, _ := pk.TypesInfo.Defs[fd.Name].(*types.Func)
+	if obj == nil {
+		return "?"
+	}
+	sig := obj.Type().(*types.Signature)
+	q := func(p *types.Package) string { return p.Path() }
+	var ps, rs []string
+	for i := 0; i < sig.Params().Len(); i++ {
+		ps = append(ps, types.TypeString(sig.Params().At(i).Type(), q))
+	}
+	for i := 0; i < sig.Results().Len(); i++ {
+		rs = append(rs, types.TypeString(sig.Results().At(i).Type(), q))
+	}
+	v := ""
+	if sig.Variadic() {
+		v = "..."
+	}
+	s := "func(" + strings.Join(ps, ", ") + v + ") (" + strings.Join(rs, ", ") + ")"
+	// type-parameter names are not part of the identity
+	return strings.Join(strings.Fields(s), " ")
+}
+
+// InventorySigs maps an inventory name to its signature (empty for an inventory without signatures).
+func InventorySigs() map[string]string {
+	m := map[string]string{}
+	for _, l := range strings.Split(inventoryText, "\n") {
+		l = strings.TrimSpace(l)
+		if l == "" || strings.HasPrefix(l, "#") {
+			continue
+		}
+		if i := strings.IndexByte(l, '\t'); i >= 0 {
+			m[l[:i]] = l[i+1:]
+		}
+	}
+	return m
+}
+
+// RenameOverlay recognises renamed functions: a function of the inventory that is no longer
+// declared and a declared function that is not in the inventory, same package and receiver type,
+// same signature, and the pairing is unique both ways. Such a function is given its inventory name
+// back (declaration and every reference), so that the rules find their anchor; nothing else changes.
+func RenameOverlay(p *Prog, read func(path string) ([]byte, error)) (map[string][]byte, []string) {
+	sigs := InventorySigs()
+	if len(sigs) == 0 {
+		return nil, nil
+	}
+	declared := map[string]bool{}
+	type cand struct {
+		pk   *packages.Package
+		fd   *ast.FuncDecl
+		name string
+		sig  string
+	}
+	var fresh []cand
+	for _, pk := range p.Pkgs {
+		for _, f := range pk.Syntax {
+			for _, d := range f.Decls {
+				fd, ok := d.(*ast.FuncDecl)
+				if !ok {
+					continue
+				}
+				n := DeclName(pk.PkgPath, fd)
+				declared[n] = true
+				if _, known := sigs[n]; !known {
+					fresh = append(fresh, cand{pk, fd, n, sigString(pk, fd)})
+				}
+			}
+		}
+	}
+	prefixOf := func(n string) string { return n[:strings.LastIndex(n, ".")+1] } // "pkg." or "pkg.(T)."
+	type edit struct {
+		start, end int
+		text       string
+	}
+	edits := map[string][]edit{}
+	var notes []string
+	finish := func() (map[string][]byte, []string) {
+		if len(edits) == 0 {
+			return nil, nil
+		}
+		out := map[string][]byte{}
+		for path, es := range edits {
+			src, err := read(path)
+			if err != nil {
+				continue
+			}
+			sort.Slice(es, func(i, j int) bool { return es[i].start < es[j].start })
+			var buf bytes.Buffer
+			last := 0
+			for _, e := range es {
+				if e.start < last {
+					continue
+				}
+				buf.Write(src[last:e.start])
+				buf.WriteString(e.text)
+				last = e.end
+			}
+			buf.Write(src[last:])
+			out[path] = buf.Bytes()
+		}
+		return out, notes
+	}
+	// renamed types first (on their own: the functions and fields are matched on the next call,
+	// when the methods are back under the receiver name of the inventory)
+	{
+		tys := p.typeObjs()
+		tdecl := map[string]*typeObj{}
+		for i := range tys {
+			tdecl[tys[i].name] = &tys[i]
+		}
+		score := func(a, b []string) float64 {
+			in := map[string]bool{}
+			for _, x := range a {
+				in[x] = true
+			}
+			both := 0
+			for _, x := range b {
+				if in[x] {
+					both++
+				}
+			}
+			union := len(a) + len(b) - both
+			if union == 0 {
+				return 0
+			}
+			return float64(both) / float64(union)
+		}
+		pkgOf := func(n string) string { return n[:strings.LastIndex(n, ".<")] }
+		type pair struct{ old string; cand *typeObj }
+		var pairs []pair
+		for old, oshape := range sigs {
+			if !strings.Contains(old, ".<") || tdecl[old] != nil {
+				continue
+			}
+			os := strings.Split(oshape, " ; ")
+			var match *typeObj
+			n := 0
+			for i := range tys {
+				if _, known := sigs[tys[i].name]; known || pkgOf(tys[i].name) != pkgOf(old) {
+					continue
+				}
+				if score(os, tys[i].shape) >= 0.6 {
+					match = &tys[i]
+					n++
+				}
+			}
+			if n == 1 {
+				pairs = append(pairs, pair{old, match})
+			}
+		}
+		for _, pr := range pairs {
+			dup := 0
+			for _, p2 := range pairs {
+				if p2.cand == pr.cand {
+					dup++
+				}
+			}
+			if dup != 1 {
+				continue
+			}
+			oldShort := strings.TrimSuffix(pr.old[strings.LastIndex(pr.old, ".<")+2:], ">")
+			for _, pk := range p.Pkgs {
+				record := func(id *ast.Ident) {
+					tf := p.Fset.File(id.Pos())
+					edits[tf.Name()] = append(edits[tf.Name()], edit{tf.Offset(id.Pos()), tf.Offset(id.End()), oldShort})
+				}
+				for id, o := range pk.TypesInfo.Defs {
+					if o == types.Object(pr.cand.obj) {
+						record(id)
+					}
+				}
+				for id, o := range pk.TypesInfo.Uses {
+					if o == types.Object(pr.cand.obj) {
+						record(id)
+					}
+				}
+			}
+			notes = append(notes, fmt.Sprintf("type %s has the shape and place of the missing %s: analysed under that name", pr.cand.name, pr.old))
+		}
+		if len(edits) > 0 {
+			return finish()
+		}
+	}
+	for old, osig := range sigs {
+		if declared[old] || strings.Contains(old, ".<") || strings.Contains(old, ".{") {
+			continue
+		}
+		var match *cand
+		n := 0
+		for i := range fresh {
+			if prefixOf(fresh[i].name) == prefixOf(old) && fresh[i].sig == osig {
+				match = &fresh[i]
+				n++
+			}
+		}
+		if n != 1 {
+			continue
+		}
+		// unique the other way round as well
+		m := 0
+		for o2, s2 := range sigs {
+			if !declared[o2] && prefixOf(o2) == prefixOf(old) && s2 == osig {
+				m++
+			}
+		}
+		if m != 1 {
+			continue
+		}
+		obj, _ := match.pk.TypesInfo.Defs[match.fd.Name].(*types.Func)
+		if obj == nil {
+			continue
+		}
+		oldShort := old[strings.LastIndex(old, ".")+1:]
+		for _, pk := range p.Pkgs {
+			record := func(id *ast.Ident) {
+				tf := p.Fset.File(id.Pos())
+				edits[tf.Name()] = append(edits[tf.Name()], edit{tf.Offset(id.Pos()), tf.Offset(id.End()), oldShort})
+			}
+			for id, o := range pk.TypesInfo.Defs {
+				if o == types.Object(obj) {
+					record(id)
+				}
+			}
+			for id, o := range pk.TypesInfo.Uses {
+				if f, ok := o.(*types.Func); ok && f.Origin() == obj {
+					record(id)
+				}
+			}
+		}
+		notes = append(notes, fmt.Sprintf("function %s has the signature and place of the missing %s: analysed under that name", match.name, old))
+	}
+	// struct fields, the same way: a missing field and a new one of the same type in the same struct
+	fields := p.fieldObjs()
+	fdeclared := map[string]bool{}
+	for _, fo := range fields {
+		fdeclared[fo.name] = true
+	}
+	for old, otyp := range sigs {
+		if !strings.Contains(old, ".{") || fdeclared[old] {
+			continue
+		}
+		var match *fieldObj
+		n := 0
+		for i := range fields {
+			if _, known := sigs[fields[i].name]; known {
+				continue
+			}
+			if prefixOf(fields[i].name) == prefixOf(old) && fields[i].typ == otyp {
+				match = &fields[i]
+				n++
+			}
+		}
+		m := 0
+		for o2, t2 := range sigs {
+			if strings.Contains(o2, ".{") && !fdeclared[o2] && prefixOf(o2) == prefixOf(old) && t2 == otyp {
+				m++
+			}
+		}
+		if n != 1 || m != 1 {
+			continue
+		}
+		oldShort := old[strings.LastIndex(old, ".")+1:]
+		for _, pk := range p.Pkgs {
+			record := func(id *ast.Ident) {
+				tf := p.Fset.File(id.Pos())
+				edits[tf.Name()] = append(edits[tf.Name()], edit{tf.Offset(id.Pos()), tf.Offset(id.End()), oldShort})
+			}
+			for id, o := range pk.TypesInfo.Defs {
+				if v, ok := o.(*types.Var); ok && v.IsField() && v.Origin() == match.obj {
+					record(id)
+				}
+			}
+			for id, o := range pk.TypesInfo.Uses {
+				if v, ok := o.(*types.Var); ok && v.IsField() && v.Origin() == match.obj {
+					record(id)
+				}
+			}
+		}
+		notes = append(notes, fmt.Sprintf("field %s has the type and place of the missing %s: analysed under that name", match.name, old))
+	}
+	return finish()
 }
 
 type inlCallee struct {
@@ -220,6 +609,17 @@ func NormalizeOverlay(p *Prog, known map[string]bool, read func(path string) ([]
 				repls[path] = append(repls[path], repl{start, end, text + strings.Repeat("\n", pad)})
 				imports[path] = append(imports[path], imps...)
 				ce.done++
+				// the copy of the body carries the body's own references to other new functions
+				ast.Inspect(ce.decl.Body, func(n ast.Node) bool {
+					if id, ok := n.(*ast.Ident); ok {
+						if f2, ok := ce.pk.TypesInfo.Uses[id].(*types.Func); ok {
+							if c2 := callees[f2.Origin()]; c2 != nil {
+								c2.uses++
+							}
+						}
+					}
+					return true
+				})
 				notes = append(notes, fmt.Sprintf("inlined call to new function %s at %s (%s)", ce.obj.Name(), p.Pos(site.call.Pos()), site.kind))
 				return true
 			}
